@@ -27,6 +27,10 @@ class Infra(Exception):
     """Infrastructure / specification problem: exit 2, never a verdict."""
 
 
+class Blocked(Infra):
+    """A harness process found the library blocked (a call did not return) after the warm-up history."""
+
+
 def log(*a):
     print(*a, file=sys.stderr, flush=True)
 
@@ -236,6 +240,11 @@ def run_harness(sub, rows, name, shards=None, race=False, timeout=1800, extra_ar
     for p, outp, cnt in procs:
         so, se = p.communicate()
         stderr_all.append(se)
+        if p.returncode == 3 and "BLOCKED-AFTER-WARMUP" in se:
+            for q, _, _ in procs:
+                if q.poll() is None:
+                    q.kill()
+            raise Blocked(se.strip().splitlines()[-1])
         if p.returncode != 0:
             raise Infra("harness %s shard failed rc=%s: %s" % (sub, p.returncode, (so + se)[-3000:]))
         rows_out = read_ndjson(outp)
